@@ -71,6 +71,22 @@ def generate(seed: int, tier: str = "quick") -> dict:
         if r < 0.3:
             if hours[k]["rows"].pop(nm, None) is not None:
                 faults.append({"kind": "missing_instrument", "instrument": nm, "hour": k})
+        elif r < 0.5 and nm in hours[k]["rows"]:
+            # the snapshot of the settlement hour shows the book already closed (state != open): not tradable, still the row
+            # the contract is settled against
+            hours[k]["rows"][nm]["state"] = "closed"
+            faults.append({"kind": "book_closed_at_settlement", "instrument": nm, "hour": k})
+    if R.sub(seed, "settlement_column").random() < 0.5:
+        # the file's settlement_price column filled in (the option's last daily settlement, an OPTION price in coin): it is
+        # not the delivery price - contracts are settled against the underlying price of the expiry snapshot
+        rs_ = R.sub(seed, "settlement_values")
+        for h in hours:
+            for nm, r_ in h["rows"].items():
+                r_["settlement"] = format(max(float(r_["mark"]) * rs_.uniform(0.8, 1.25), 0.0001), ".4f")
+        faults.append({"kind": "settlement_price_column_filled"})
+    if not mw.get("filtered_from_half_hours") and R.sub(seed, "via_files").random() < 0.25:
+        mw["via_files"] = True  # the snapshots reach the market through per-day files and the real loader
+        faults.append({"kind": "data_read_from_day_files"})
     settle_hours = sorted({meta[nm]["settle_hour"] for nm in meta if meta[nm]["settle_hour"]})
     if settle_hours and rf.random() < 0.25:
         k = rf.choice(settle_hours)
